@@ -631,7 +631,12 @@ fn emit_expr(rng: &mut Rng, ev_names: &[&str], type_names: &[String], locals_all
         0 | 1 | 2 => json!({"k": "path", "segs": ["app"]}),
         3 => json!({"k": "path", "segs": ["window"]}),
         4 => json!({"k": "path", "segs": ["webview"]}),
-        5 => json!({"k": "field", "base": {"k": "path", "segs": ["self_like"]}, "name": "app"}),
+        5 => match rng.below(3) {
+            0 => json!({"k": "field", "base": {"k": "path", "segs": ["self_like"]}, "name": "app"}),
+            // the handle is a field reached through another field / a call
+            1 => json!({"k": "field", "base": {"k": "field", "base": {"k": "path", "segs": ["ctx"]}, "name": "handles"}, "name": *rng.pick(&["app", "window", "webview"])}),
+            _ => json!({"k": "field", "base": {"k": "mcall", "recv": {"k": "path", "segs": ["ctx"]}, "method": "ui", "args": []}, "name": "window"}),
+        },
         6 => if rng.chance(1, 2) { json!({"k": "mcall", "recv": {"k": "path", "segs": ["ctx"]}, "method": "handle", "args": []}) } else {
             // … of a method call that takes arguments
             json!({"k": "mcall", "recv": {"k": "path", "segs": ["handles"]}, "method": "handle_for", "args": [{"k": "ref", "e": {"k": "path", "segs": ["label"]}}, {"k": "lit", "text": "2", "lit": "int"}]})
@@ -704,8 +709,14 @@ fn wrap_emit(rng: &mut Rng, e: Value) -> Value {
         3 => json!({"k": "expr", "e": {"k": "try", "e": e}}),
         4 => json!({"k": "let", "pat": "wild", "init": e}),
         5 => json!({"k": "expr", "e": {"k": "if", "cond": "flag", "then": [{"k": "expr", "e": e}], "else": null}}),
-        6 => json!({"k": "expr", "semi": false, "e": {"k": "if", "cond": "flag", "then": [{"k": "expr", "e": {"k": "lit", "text": "()"}}],
-                    "else": {"k": "block", "body": [{"k": "expr", "e": e}]}}}),
+        6 => if rng.chance(1, 2) { json!({"k": "expr", "semi": false, "e": {"k": "if", "cond": "flag", "then": [{"k": "expr", "e": {"k": "lit", "text": "()"}}],
+                    "else": {"k": "block", "body": [{"k": "expr", "e": e}]}}}) } else {
+            // `if … else if … else if … else`: the emit sits in the last of four branches
+            json!({"k": "expr", "semi": false, "e": {"k": "if", "cond": "flag", "then": [],
+                "else": {"k": "if", "cond": "n > 1", "then": [],
+                    "else": {"k": "if", "cond": "n > 2", "then": [{"k": "expr", "e": {"k": "lit", "text": "()"}}],
+                        "else": {"k": "block", "body": [{"k": "expr", "e": e}]}}}}})
+        },
         7 => json!({"k": "expr", "semi": false, "e": {"k": "match", "scrut": "n", "arms": [{"k": "block", "body": [{"k": "expr", "e": e.clone()}]}, {"k": "block", "body": []}]}}),
         8 => json!({"k": "expr", "semi": false, "e": {"k": rng.pick(&["loop", "while", "for"]), "cond": "flag", "body": [{"k": "expr", "e": e}]}}),
         9 => json!({"k": "expr", "e": {"k": "try", "e": {"k": "await", "e": e}}}),
@@ -722,10 +733,11 @@ pub fn random_project(rng: &mut Rng, nfiles: usize, adversarial: bool, externs: 
     let mut items_per_file: Vec<Vec<Value>> = vec![Vec::new(); nfiles];
     let ntypes = 1 + rng.below(3 + nfiles);
     let field_names = ["id", "user_name", "created_at", "count", "items", "meta_data", "is_active", "r_type"];
+    let mut lifetime_names: Vec<String> = Vec::new();
     for t in 0..ntypes {
         // stems include names ending in `Schema` / `Params`-like words and names of well-known std types used as *user* types
         let name = if rng.chance(1, 6) {
-            (*rng.pick(&["TableSchema", "Path", "PathBuf", "Duration", "Value", "Params", "Channel0", "Result0", "OptionLike", "設定", "用户", "Ünit", "Ωmega", "MapRegion", "RecordingInfo", "Mapper", "Records", "PromiseLike", "ArrayBuf", "Rgb", "RGB", "Vector3", "VecStats", "HashSetLike", "BoxedValue", "ResultCode", "Sensor_Reading", "snake_type", "HTTPServer"])).to_string() + if t % 2 == 0 { "" } else { "X" }
+            (*rng.pick(&["Duration", "Duration", "Duration", "Path", "Path", "Value", "Value", "TableSchema", "Path", "PathBuf", "Duration", "Value", "Params", "Channel0", "Result0", "OptionLike", "設定", "用户", "Ünit", "Ωmega", "MapRegion", "RecordingInfo", "Mapper", "Records", "PromiseLike", "ArrayBuf", "Rgb", "RGB", "Vector3", "VecStats", "HashSetLike", "BoxedValue", "ResultCode", "Sensor_Reading", "snake_type", "HTTPServer"])).to_string() + if t % 2 == 0 { "" } else { "X" }
         } else {
             format!("{}{}", rng.pick(&["User", "Order", "Item", "Config", "Event", "Status", "Mode", "DbConfig", "AppUser", "SubItem", "Sensor_Reading", "HTTPConn"]), t)
         };
@@ -822,7 +834,12 @@ pub fn random_project(rng: &mut Rng, nfiles: usize, adversarial: bool, externs: 
                 }
             }
             let lifetime = shape == "named" && rng.chance(1, 6);
+            if lifetime && !lifetime_names.is_empty() && rng.chance(1, 2) {
+                // `title: Label<'a>` inside `Page<'a>`
+                fields.push(json!({"name": "borrowed_part", "vis": "pub", "ty": ty_json(&RTy::Named(format!("{}<'a>", rng.pick(&lifetime_names)))), "attrs": []}));
+            }
             if lifetime {
+                lifetime_names.push(name.clone());
                 fields.push(json!({"name": "borrowed_text", "vis": "pub", "ty": ty_json(&RTy::RefL(Box::new(RTy::Prim("str".into())))), "attrs": []}));
             }
             items_per_file[f].push(json!({"k": "struct", "name": name, "attrs": attrs, "shape": shape, "fields": fields, "lifetime": lifetime}));
@@ -1092,6 +1109,19 @@ pub fn random_project(rng: &mut Rng, nfiles: usize, adversarial: bool, externs: 
         items_per_file[f].push(json!({"k": "fn", "name": "load_tri", "attrs": [attr("tauri::command")], "vis": "pub", "async": false,
             "params": [], "ret": ty_json(&named("TriA")), "body": [{"k": "other", "text": "todo!()"}]}));
     }
+    if rng.chance(1, 10) {
+        let der = "derive(Debug, Clone, Serialize, Deserialize)";
+        let fa = rng.below(nfiles);
+        let fb = rng.below(nfiles);
+        items_per_file[fa].push(json!({"k": "struct", "name": "RingFolder", "attrs": [attr(der)], "shape": "named",
+            "fields": [{"name": "entries", "vis": "pub", "ty": ty_json(&RTy::Vec(Box::new(RTy::Named("RingEntry".into())))), "attrs": []}]}));
+        items_per_file[fb].push(json!({"k": "struct", "name": "RingEntry", "attrs": [attr(der)], "shape": "named",
+            "fields": [{"name": "parents", "vis": "pub", "ty": ty_json(&RTy::Vec(Box::new(RTy::Named("RingFolder".into())))), "attrs": []},
+                       {"name": "size", "vis": "pub", "ty": ty_json(&RTy::Prim("u64".into())), "attrs": []}]}));
+        items_per_file[fa].push(json!({"k": "fn", "name": "store_tree", "attrs": [attr("tauri::command")], "vis": "pub", "async": false,
+            "params": [value_param("root", &RTy::Named("RingFolder".into()), vec![]), value_param("first", &RTy::Named("RingEntry".into()), vec![])],
+            "ret": null, "body": [{"k": "other", "text": "todo!()"}]}));
+    }
     // a long acyclic chain of types (no bound on the depth of a dependency path): Link00 { next: Option<Link01> } … Link39
     if rng.chance(1, 12) {
         let len = 34 + rng.below(8);
@@ -1216,7 +1246,7 @@ pub fn run(out: &mut crate::out::Out, tier: &str, rng: &mut Rng) {
         for mode in ["none", "zod"] {
             let cfg = match i % 5 {
                 0 => json!({"mode": mode}),
-                1 => json!({"mode": mode, "mappings": {"User0": "string"}}),
+                1 => json!({"mode": mode, "mappings": {"User0": "string", "chrono::Duration": "number", "std::path::Path": "string", "serde_json::Value": "unknown"}}),
                 2 => json!({"mode": mode, "param_case": "snake_case"}),
                 3 => json!({"mode": mode, "field_case": "camelCase"}),
                 _ => json!({"mode": mode, "mappings": {"PathBuf": "string", "Item1": "number", "Uuid": "string", "DocId": "string"}}),
